@@ -49,6 +49,17 @@ theorem spec_extend {α β δ : Type} (ratio : Nat) (dataOf : α → δ) (mk : L
 theorem extend_then_reduce_data (w : Nat) (words : List Nat) (i : Nat) (h : i < words.length) :
     partWord w i (packWords w words) = words[i] % 2 ^ w := partWord_packWords w words i h
 
+/-- the same for the byte enables: `reduceWidth` gives part `k` of a word exactly the enable group `k` that `extendWidth`
+    (or the producer) put there — `redSlice`/`extMk` use `partWord`/`packWords` for data and byte enables alike -/
+theorem reduce_slice_byteEnable (ratio w bw k : Nat) (x : Beat) :
+    (redSlice ratio w bw k x).be = partWord bw k x.be ∧ (redSlice ratio w bw k x).data = partWord w k x.data ∧
+    (redSlice ratio w bw k x).aux = x.aux := ⟨rfl, rfl, rfl⟩
+
+theorem extend_then_reduce_byteEnable (w bw : Nat) (slots : List (Nat × Nat)) (x : Beat) (ratio k : Nat) (h : k < slots.length) :
+    (redSlice ratio w bw k (extMk w bw slots x)).be = (slots[k]).2 % 2 ^ bw := by
+  have := partWord_packWords bw (slots.map Prod.snd) k (by simpa using h)
+  simpa [redSlice, extMk] using this
+
 /-- specifications compose like functions -/
 theorem spec_comp {α β γ : Type} (T : Trans α β) (U : Trans β γ) (l : List α) : (T.comp U).run l = U.run (T.run l) :=
   Trans.run_comp T U l
@@ -159,12 +170,12 @@ example : FifoOk 4 2 false ∧ FifoOk 16 1 true ∧ ¬ FifoOk 0 1 false := by
   refine ⟨⟨by decide, by decide⟩, ⟨by decide, by decide⟩, fun h => absurd h.1 (by decide)⟩
 
 /-- a concrete chain `regDecouple | fifo(4, latency 2) | extendWidth 2 | delay 3 | reduceWidth 2` over concrete beats -/
-example : ∃ T ok, GoodChain (chainOf [.dec, .fifo 4 2 false, .ext 2 8, .dly 3, .red 2 8]) T ok :=
+example : ∃ T ok, GoodChain (chainOf [.dec, .fifo 4 2 false, .ext 2 8 1, .dly 3, .red 2 8 1]) T ok :=
   ⟨_, _, .cons (good_regDecouple _) (.cons (good_fifo _ 4 2 false ⟨by decide, by decide⟩)
     (.cons (good_extendWidth 2 _ _ _ (by decide)) (.cons (good_delay _ 3) (.cons (good_reduceWidth 2 _ (by decide)) .nil))))⟩
 
 /-- a live chain `delay 2 | fifo(8, latency 3) | extendWidth 2 | regDownstream | reduceWidth 2` -/
-example : ∃ T ok, LiveChain (chainOf [.dly 2, .fifo 8 3 false, .ext 2 8, .ds, .red 2 8]) T ok false true :=
+example : ∃ T ok, LiveChain (chainOf [.dly 2, .fifo 8 3 false, .ext 2 8 1, .ds, .red 2 8 1]) T ok false true :=
   ⟨_, _, .cons (good_delay _ 2) (live_delay _ 1) (.cons (good_fifo _ 8 3 false ⟨by decide, by decide⟩) (live_fifo _ 8 3 false ⟨by decide, by decide⟩)
     (.cons (good_extendWidth 2 _ _ _ (by decide)) (live_extendWidth 2 _ _ _ (by decide) true)
       (.cons (good_regDownstream _) (live_regDownstream _)
